@@ -84,3 +84,6 @@ ITEMS = _rebased(_m.ITEMS) + [
                 && x.spec_unknown() is Some && x.spec_unknown()->Some_0.type_annotation == Some(Type::Entity { ty: uid.spec_entity_type() }),
         }''')]),
 ]
+# functions behind the ASSUMED repair_tc contract (reviewed, not verified): a change to them makes this unit's answer 'undecided'
+WATCH = [('cedar-policy-core/src/transitive_closure.rs', 'fn repair_tc'), ('cedar-policy-core/src/transitive_closure.rs', 'fn compute_tc_internal'),
+         ('cedar-policy-core/src/transitive_closure.rs', 'fn add_ancestors')]
